@@ -424,7 +424,22 @@ func isMaxInt64(v ssa.Value) bool {
 // for x+y: a dominating `x > MaxInt64 - y` (or y > MaxInt64 - x) known false.
 func (c *Ctx) overflowGuarded(bin *ssa.BinOp) (string, bool) {
 	conds := core.CondsAt(bin.Block())
-	same := func(a, b ssa.Value) bool { return a == b }
+	// the same value: one SSA value, or two loads of the same variable (a field of a local struct that holds the running
+	// sums) with no store to that variable on any path from the first load to the second
+	same := func(a, b ssa.Value) bool {
+		if a == b {
+			return true
+		}
+		la, okA := a.(*ssa.UnOp)
+		lb, okB := b.(*ssa.UnOp)
+		if !okA || !okB || la.Op != token.MUL || lb.Op != token.MUL {
+			return false
+		}
+		if !sameAddr(la.X, lb.X) {
+			return false
+		}
+		return noStoreBetween(la, lb, la.X) && noStoreBetween(lb, la, la.X)
+	}
 	positive := func(v ssa.Value) bool {
 		for _, cd := range conds {
 			b2, ok := cd.V.(*ssa.BinOp)
@@ -477,6 +492,60 @@ func (c *Ctx) overflowGuarded(bin *ssa.BinOp) (string, bool) {
 		}
 	}
 	return "no dominating comparison against MaxInt64 / b (resp. MaxInt64 - y) on the operands", false
+}
+
+// noStoreBetween: no store to the variable at addr lies on a path from `from` to `to`.
+// sameAddr: the two addresses name the same variable: one SSA value, or the same field of the same variable.
+func sameAddr(x, y ssa.Value) bool {
+	if x == y {
+		return true
+	}
+	fx, okX := x.(*ssa.FieldAddr)
+	fy, okY := y.(*ssa.FieldAddr)
+	return okX && okY && fx.Field == fy.Field && sameAddr(fx.X, fy.X)
+}
+
+// overlapsAddr: a store to x changes what is read at y (the same variable, or a struct that contains it).
+func overlapsAddr(x, y ssa.Value) bool {
+	for v := y; ; {
+		if sameAddr(x, v) {
+			return true
+		}
+		fa, ok := v.(*ssa.FieldAddr)
+		if !ok {
+			return false
+		}
+		v = fa.X
+	}
+}
+
+func noStoreBetween(from, to ssa.Instruction, addr ssa.Value) bool {
+	pos := func(in ssa.Instruction) int {
+		for i, x := range in.Block().Instrs {
+			if x == in {
+				return i
+			}
+		}
+		return -1
+	}
+	for _, b := range from.Parent().Blocks {
+		for i, in := range b.Instrs {
+			st, ok := in.(*ssa.Store)
+			if !ok || !overlapsAddr(st.Addr, addr) {
+				continue
+			}
+			// after `from` ...
+			after := (b == from.Block() && i > pos(from)) || (b != from.Block() && blockReaches(from.Block(), b, nil)) ||
+				(b == from.Block() && blockReaches(b, b, nil))
+			// ... and before `to`
+			before := (b == to.Block() && i < pos(to)) || (b != to.Block() && blockReaches(b, to.Block(), nil)) ||
+				(b == to.Block() && blockReaches(b, b, nil))
+			if after && before {
+				return false
+			}
+		}
+	}
+	return true
 }
 
 func dominatesThroughPreds(a, b *ssa.BasicBlock) bool {
